@@ -4,6 +4,10 @@
   noise-free case of the sex inference.
 -/
 import CnvVerif.Model.Center
+import Mathlib.Tactic.Linarith
+import Mathlib.Tactic.Ring
+import Mathlib.Tactic.FieldSimp
+import Mathlib.Tactic.NormNum
 namespace CnvVerif
 
 /-- an estimator that moves with the data when a constant is added (median, mean, biweight
@@ -11,18 +15,77 @@ namespace CnvVerif
 def TransEquiv (est : List Rat → Rat) : Prop :=
   ∀ (l : List Rat) (c : Rat), l ≠ [] → est (l.map (· + c)) = est l + c
 
+theorem foldl_add_acc (l : List Rat) (a b : Rat) :
+    l.foldl (· + ·) (a + b) = l.foldl (· + ·) a + b := by
+  induction l generalizing a with
+  | nil => rfl
+  | cons x xs ih =>
+    simp only [List.foldl_cons]
+    rw [show a + b + x = a + x + b by ring, ih]
+
+theorem foldl_add_map_add (l : List Rat) (c a : Rat) :
+    (l.map (· + c)).foldl (· + ·) a = l.foldl (· + ·) a + (l.length : Rat) * c := by
+  induction l generalizing a with
+  | nil => simp
+  | cons x xs ih =>
+    simp only [List.map_cons, List.foldl_cons, List.length_cons]
+    rw [ih, show a + (x + c) = a + x + c by ring, foldl_add_acc]
+    push_cast
+    ring
+
+theorem sumR_map_add (l : List Rat) (c : Rat) :
+    sumR (l.map (· + c)) = sumR l + (l.length : Rat) * c := foldl_add_map_add l c 0
+
 theorem meanR_transEquiv : TransEquiv meanR := by
-  sorry
+  intro l c hl
+  unfold meanR
+  rw [sumR_map_add, List.length_map]
+  have hne : (l.length : Rat) ≠ 0 := by
+    have : l.length ≠ 0 := by simpa using hl
+    exact_mod_cast this
+  field_simp
+
+theorem pairwise_le_mergeSort (l : List Rat) : (l.mergeSort (· ≤ ·)).Pairwise (· ≤ ·) := by
+  have := List.pairwise_mergeSort (le := fun (a b : Rat) => decide (a ≤ b))
+    (by intro a b c; simp only [decide_eq_true_eq]; exact le_trans)
+    (by intro a b; simp only [Bool.or_eq_true, decide_eq_true_eq]; exact le_total a b) l
+  simpa using this
+
+/-- sorting commutes with adding a constant (a sorted permutation is unique) -/
+theorem mergeSort_map_add (l : List Rat) (c : Rat) :
+    (l.map (· + c)).mergeSort (· ≤ ·) = (l.mergeSort (· ≤ ·)).map (· + c) := by
+  apply List.Perm.eq_of_pairwise (le := (· ≤ ·))
+  · intro a b _ _ h1 h2; exact le_antisymm h1 h2
+  · exact pairwise_le_mergeSort _
+  · rw [List.pairwise_map]
+    exact (pairwise_le_mergeSort l).imp (by intro a b h; linarith)
+  · exact (List.mergeSort_perm _ _).trans ((List.mergeSort_perm l _).map _).symm
+
+theorem getD_map_lt (l : List Rat) (f : Rat → Rat) (i : Nat) (h : i < l.length) :
+    (l.map f).getD i 0 = f (l.getD i 0) := by
+  simp [List.getD_eq_getElem?_getD, List.getElem?_map, List.getElem?_eq_getElem h]
 
 theorem medianR_transEquiv : TransEquiv medianR := by
-  sorry
+  intro l c hl
+  unfold medianR
+  simp only [mergeSort_map_add, List.length_map]
+  have hlen : (l.mergeSort (· ≤ ·)).length = l.length := List.length_mergeSort l
+  have hpos : 0 < l.length := List.length_pos_iff.mpr hl
+  generalize l.mergeSort (· ≤ ·) = s at *
+  rw [hlen]
+  have h0 : l.length ≠ 0 := by omega
+  rw [if_neg h0, if_neg h0]
+  split
+  · rw [getD_map_lt _ _ _ (by omega)]
+  · rw [getD_map_lt _ _ _ (by omega), getD_map_lt _ _ _ (by omega)]
+    ring
 
 /-- center_all changes nothing but log2, and adds the same constant to every bin -/
 theorem centerAll_uniform_shift (est : List Rat → Rat) (byChrom skipLow : Bool) (par : Option String)
     (t : List CBin) :
     centerAll est byChrom skipLow par t =
       t.map (fun b => { b with log2 := b.log2 + centerShift est byChrom skipLow par t }) := by
-  sorry
+  rfl
 
 /-- hence differences between bins are untouched -/
 theorem centerAll_differences (est : List Rat → Rat) (byChrom skipLow : Bool) (par : Option String)
@@ -31,14 +94,53 @@ theorem centerAll_differences (est : List Rat → Rat) (byChrom skipLow : Bool) 
     (hj' : j < (centerAll est byChrom skipLow par t).length) :
     ((centerAll est byChrom skipLow par t)[i]).log2 - ((centerAll est byChrom skipLow par t)[j]).log2
       = (t[i]).log2 - (t[j]).log2 := by
-  sorry
+  simp only [centerAll, List.getElem_map]
+  show (t[i]).log2 + _ - ((t[j]).log2 + _) = _
+  ring
 
 /-- the values fed to the estimator move with the data (per chromosome first, then across) -/
 theorem centerValues_shift (est : List Rat → Rat) (he : TransEquiv est) (byChrom : Bool)
     (sel : List CBin) (c : Rat) :
     centerValues est byChrom (sel.map (fun b => { b with log2 := b.log2 + c }))
       = (centerValues est byChrom sel).map (· + c) := by
-  sorry
+  unfold centerValues
+  cases byChrom with
+  | false =>
+    simp only [Bool.false_eq_true, if_false, List.map_map]
+    rfl
+  | true =>
+    simp only [if_true]
+    have hnames : (sel.map (fun b => { b with log2 := b.log2 + c })).map (·.chrom) = sel.map (·.chrom) := by
+      rw [List.map_map]; rfl
+    rw [hnames, List.map_map]
+    apply List.map_congr_left
+    intro ch hch
+    rw [List.mem_eraseDups, List.mem_map] at hch
+    obtain ⟨b0, hb0, hb0c⟩ := hch
+    rw [List.filter_map, List.map_map]
+    have hf : ((fun b : CBin => b.chrom == ch) ∘ fun b : CBin => { b with log2 := b.log2 + c })
+        = fun b : CBin => b.chrom == ch := rfl
+    have hg : ((fun b : CBin => b.log2) ∘ fun b : CBin => { b with log2 := b.log2 + c })
+        = (· + c) ∘ fun b : CBin => b.log2 := rfl
+    rw [hf, hg, ← List.map_map]
+    show _ = est _ + c
+    apply he
+    intro hnil
+    have hmem : b0 ∈ sel.filter (fun b => b.chrom == ch) := by
+      rw [List.mem_filter]; exact ⟨hb0, by simp [hb0c]⟩
+    have := List.map_eq_nil_iff.mp hnil
+    rw [this] at hmem
+    exact absurd hmem List.not_mem_nil
+
+theorem centerValues_ne_nil (est : List Rat → Rat) (byChrom : Bool) (sel : List CBin)
+    (hsel : sel ≠ []) : centerValues est byChrom sel ≠ [] := by
+  obtain ⟨b, rest, rfl⟩ := List.exists_cons_of_ne_nil hsel
+  unfold centerValues
+  cases byChrom with
+  | false => simp
+  | true =>
+    simp only [if_true, List.map_cons, List.eraseDups_cons]
+    simp
 
 /-- MAIN: after adding the shift `−est(values)` the chosen estimator of the selected bins is zero,
     for every translation-equivariant estimator, per chromosome first or not -/
@@ -46,7 +148,8 @@ theorem center_zeroes_estimator (est : List Rat → Rat) (he : TransEquiv est) (
     (sel : List CBin) (hsel : sel ≠ []) :
     est (centerValues est byChrom
           (sel.map (fun b => { b with log2 := b.log2 + (-(est (centerValues est byChrom sel))) }))) = 0 := by
-  sorry
+  rw [centerValues_shift est he, he _ _ (centerValues_ne_nil est byChrom sel hsel)]
+  ring
 
 /-- shift_xx adds −1 (female sample, male reference), +1 (male sample, female reference) or 0
     to the chrX bins and leaves every other bin alone -/
@@ -55,7 +158,7 @@ theorem shiftXX_spec (hapX isXX : Bool) (t : List CBin) :
       if b.chrom == xLabel ((t.head?.map (·.chrom)).getD "")
       then { b with log2 := b.log2 + (if isXX && hapX then -1 else if !isXX && !hapX then 1 else 0) }
       else b) := by
-  sorry
+  rfl
 
 /-- the level chrX sits at for a sample of the given sex against the given reference, relative to
     the autosomes -/
@@ -64,7 +167,7 @@ def expectedX (hapX isXX : Bool) : Rat := (if isXX then 0 else -1) + (if hapX th
 /-- … so a chrX at its expected level is brought to the autosomal level 0 -/
 theorem shiftXX_levels (hapX isXX : Bool) :
     expectedX hapX isXX + (if isXX && hapX then -1 else if !isXX && !hapX then 1 else 0) = 0 := by
-  sorry
+  cases hapX <;> cases isXX <;> simp [expectedX]
 
 /-- expect_flat_log2: 0 on autosomes (and on PAR when a diploid-PAR genome is named), −1 on Y, and
     −1 on X only for a male reference -/
@@ -74,7 +177,10 @@ theorem expectFlat_spec (hapX : Bool) (par : Option String) (t : List CBin) :
       let cls := classOf first par b.chrom b.s b.e
       if hapX then (if cls = .x ∨ cls = .y then (-1 : Rat) else 0)
       else (if b.chrom = yLabel first then (-1 : Rat) else 0)) := by
-  sorry
+  unfold expectFlat
+  apply List.map_congr_left
+  intro b _
+  cases hapX <;> simp
 
 /-- noise-free sex inference (the regime where Mood's test is degenerate and the code falls back to
     median differences): autosomes at level `a`, chrX at its expected level, chrY — when present —
@@ -86,25 +192,55 @@ theorem sex_ideal (hapX female : Bool) (a : Rat) (y : Option Rat)
            (idealCmp a (a + expectedX hapX female) (xShifts hapX).2)
            (y.map fun yl => (idealCmp a (a + yl) yShifts.1, idealCmp a (a + yl) yShifts.2))
       = !female := by
-  sorry
+  cases female with
+  | true =>
+    cases hapX <;> cases y <;>
+      simp [isMale, idealCmp, compareChrom, xShifts, yShifts, expectedX, absR]
+  | false =>
+    rcases hy rfl with rfl | rfl <;> cases hapX <;>
+      simp [isMale, idealCmp, compareChrom, xShifts, yShifts, expectedX, absR] <;>
+      norm_num
 
 /-- which chromosome names count as autosomes: optional `chr` prefix followed by digits only -/
 theorem isAutosomeName_examples :
     isAutosomeName "chr12" = true ∧ isAutosomeName "7" = true ∧ isAutosomeName "chrX" = false ∧
     isAutosomeName "X" = false ∧ isAutosomeName "chr1_random" = false ∧ isAutosomeName "chr" = false ∧
     isAutosomeName "" = false ∧ isAutosomeName "chrM" = false := by
-  sorry
+  have h1 : ("chr12".drop 3).isEmpty = false := by decide
+  have h4 : ("chr".drop 3).isEmpty = true := by decide
+  refine ⟨?_, ?_, ?_, ?_, ?_, ?_, ?_, ?_⟩
+  · simp [isAutosomeName, h1]
+  · simp [isAutosomeName]
+  · simp [isAutosomeName]
+  · simp [isAutosomeName]
+  · simp [isAutosomeName]
+  · simp [isAutosomeName, h4]
+  · simp [isAutosomeName]
+  · simp [isAutosomeName]
 
 /-- when no chromosome is named like an autosome, every bin is used -/
 theorem autosomesOf_none (first : String) (par : Option String) (t : List CBin)
     (h : ∀ b ∈ t, isAutosomeName b.chrom = false) : autosomesOf first par t = t := by
-  sorry
+  unfold autosomesOf
+  have : t.any (fun b => isAutosomeName b.chrom) = false := by
+    rw [List.any_eq_false]
+    intro b hb
+    simp [h b hb]
+  simp [this]
 
 /-- otherwise exactly the autosomal bins, plus PAR-X bins when a diploid-PAR genome is named -/
 theorem autosomesOf_some (first : String) (par : Option String) (t : List CBin)
     (h : ∃ b ∈ t, isAutosomeName b.chrom = true) (b : CBin) :
     b ∈ autosomesOf first par t ↔ b ∈ t ∧ (isAutosomeName b.chrom = true ∨
       ∃ g, par = some g ∧ b.chrom = xLabel first ∧ inPar g "PAR1X" "PAR2X" b.s b.e = true) := by
-  sorry
+  obtain ⟨b0, hb0, hb0'⟩ := h
+  unfold autosomesOf
+  have : t.any (fun b => isAutosomeName b.chrom) = true := by
+    rw [List.any_eq_true]
+    exact ⟨b0, hb0, hb0'⟩
+  simp only [this, Bool.not_true, Bool.false_eq_true, if_false, List.mem_filter]
+  cases par with
+  | none => simp
+  | some g => simp
 
 end CnvVerif
